@@ -322,6 +322,31 @@ type MpNamed struct {
 	Sum    Totals
 }
 
+// Location / Trip: user types whose short names are also names of time.Time's internals
+type Location struct {
+	Name string
+	Lat  float64
+}
+type Zone struct{ Id int32 }
+type Trip struct {
+	When  time.Time
+	Where Location
+	Z     *Zone
+	Stops []Location
+	Back  time.Time
+}
+
+// EmbPtrNamed embeds a POINTER to a custom-named struct (nil in the zero value)
+type EmbPtrNamed struct {
+	*NamedS
+	X int32
+}
+type EmbPtrHolder struct {
+	A EmbPtrNamed
+	P *EmbPtrNamed
+	N NamedS
+}
+
 // MapThenInts: a typed (named) map in front of integer lists of different widths, one type repeated
 type MapThenInts struct {
 	M NamedMap
@@ -374,6 +399,7 @@ type Big uint64
 type Small uint16
 type Label string
 type Flag bool
+type Small8 uint8
 
 type NamedScalars struct {
 	C  Celsius
@@ -390,6 +416,8 @@ type NamedScalars struct {
 	Is []Level
 	M  map[Label]Level
 	N  map[string]Flag
+	Os []Small8
+	O  Small8
 }
 
 type MpF64Str struct{ M map[float64]string }
@@ -514,6 +542,7 @@ var Types = []Entry{
 	e(NamedS{}, "custom"), e(NamedHolder{}, "custom"), e(NamedListHolder{}, "custom", "custom-slice"), e(NamedMapHolder{}, "custom", "custom-map"), e(MapThenLists{}, "custom", "custom-map", "slice"), e(PadThen{}, "scalars"),
 	e(Uni{}, "scalars", "unicode-fields"), e(NamedNode{}, "recursive", "custom"), e(MpStructKey{}, "map", "struct-key"), e(MpStrAny{}, "map", "iface"),
 	e(SlMapSl{}, "slice", "slice-of-map"), e(SlMapPtr{}, "slice", "slice-of-map", "recursive"), e(MpMpPtr{}, "map", "recursive"), e(MpNamed{}, "map", "custom", "custom-map"),
+	e(Trip{}, "nested", "slice", "time-internals-names"), e(EmbPtrNamed{}, "embedded", "custom"), e(EmbPtrHolder{}, "embedded", "custom"),
 	e(TwoNarrow{}, "slice"), e(MapThenInts{}, "custom", "custom-map", "slice"), e(CaseInts{}, "scalars", "case-variant-fields"), e(EmbNamed{}, "embedded", "custom"), e(EmbNamedHolder{}, "embedded", "custom", "slice"),
 	e(HoldR{}, "slice", "map", "self-referential-container"), e(NamedScalars{}, "scalars", "named-scalars", "slice", "map"),
 	e(DigestHolder{}, "slice", "named-bytes"), e(StampedHolder{}, "embedded", "embedded-time"), e(PtrMap{}, "map", "ptr-map"),
